@@ -1750,7 +1750,7 @@ void    ADFI_close_file(
 		const int file_index,
 		int *error_return )
 {
-int index ;
+int index, n ;
 
 if( file_index >= maximum_files || ADF_file[file_index].in_use == 0 ) {
    *error_return = ADF_FILE_NOT_OPENED ;
@@ -1759,14 +1759,15 @@ if( file_index >= maximum_files || ADF_file[file_index].in_use == 0 ) {
 
 *error_return = NO_ERROR ;
 
-/* close files that his file links to */
-for (index = 0; index < ADF_file[file_index].nlinks; index++) {
-   ADFI_close_file( ADF_file[file_index].links[index], error_return);
-}
-
 /* don't close until in_use is 0 */
 index = ADF_file[file_index].in_use - 1;
 if ( index == 0) {
+   /* close the files that this file links to -- only now that the last
+      reference to this file goes: while it is still open elsewhere (another
+      handle, a link from another open file) it keeps its linked files */
+   for (n = 0; n < ADF_file[file_index].nlinks; n++) {
+      ADFI_close_file( ADF_file[file_index].links[n], error_return);
+   }
    ADF_sys_err = 0;
    if( ADF_file[file_index].file >= 0 ) {
       ADFI_flush_buffers( file_index, FLUSH_CLOSE, error_return );
